@@ -456,6 +456,83 @@ func genSeqPlan(prop string, seed uint64, tier string) *Plan {
 		restarts = 3
 		p.Extra["scenario"] = 1
 	}
+	if prop == "C13" && p.Extra["benignCollide"] == 1 && len(p.Groups) > 0 && r.Bool(1, 2) {
+		// GC *without* hint merging is not safe for colliding keys in general (recorded finding
+		// KF-C13-collide-gc), but by design it is in two situations, which these templates build:
+		// T1 the newer key of an undiscovered collision still has its hint item in a memory buffer
+		//    when the chunk of the older key is collected (the pass finds the hash there and keeps
+		//    the record "by guess");
+		// T2 the hash is a registered collision and a third key joined it later (hash known, key
+		//    unknown: kept "by guess").
+		id := idBase
+		add := func(op Op) { id++; op.ID = id; p.Ops = append(p.Ops, op) }
+		small := func(k int) Op {
+			return Op{Kind: "set", K: k, Verb: "set", V: ValSpec{Class: r.Pick(VConst, VText, VRandom), Len: r.Pick(8, 10, 40, 200), Seed: uint32(r.U64())}}
+		}
+		grp := p.Groups[r.Intn(len(p.Groups))]
+		inGroup := map[int]bool{}
+		for _, g := range p.Groups {
+			for _, k := range g {
+				inGroup[k] = true
+			}
+		}
+		var others []int
+		for k := range p.Keys {
+			if !inGroup[k] && c.served(bucketOf(c, p.Keys[k])) {
+				others = append(others, k)
+			}
+		}
+		filler := func() {
+			if len(others) > 0 {
+				add(small(others[r.Intn(len(others))]))
+			}
+		}
+		b := bucketOf(c, p.Keys[grp[0]])
+		c.Background = false
+		for j := r.Range(0, 3); j > 0; j-- {
+			filler()
+		}
+		if len(grp) >= 3 && r.Bool(1, 2) {
+			A, B, C := grp[0], grp[1], grp[2]
+			add(small(A))
+			filler()
+			add(small(B))
+			add(Op{Kind: "get", K: A}) // discovers and registers the collision of A and B
+			add(small(C))
+			add(small(B))
+			add(Op{Kind: "restart", DelSeed: uint32(r.U64())})
+			add(Op{Kind: "gc", GCBucket: b, GCStart: 0, GCEnd: 0, GCDays: 0, Merge: false})
+			add(Op{Kind: "get", K: C})
+			add(Op{Kind: "get", K: A})
+			add(Op{Kind: "get", K: B})
+			p.Extra["gcTemplate"] = 2
+		} else {
+			A, B := grp[0], grp[1]
+			add(small(A))
+			filler()
+			add(Op{Kind: "restart", DelSeed: uint32(r.U64())})
+			if len(others) >= 2 && r.Bool(2, 3) {
+				// B's chunk gets an older, already dumped hint split (a full split is rotated and
+				// dumped) before B's item goes into the new in-memory split
+				c.SplitCap = int64(r.Pick(2, 2, 3))
+				if int(c.SplitCap) > len(others) {
+					c.SplitCap = int64(len(others))
+				}
+				for j := 0; j < int(c.SplitCap); j++ {
+					add(small(others[j]))
+				}
+				p.Extra["gcTemplateDumpedSplit"] = 1
+			}
+			add(small(B))
+			add(Op{Kind: "gc", GCBucket: b, GCStart: 0, GCEnd: 0, GCDays: 0, Merge: false})
+			add(Op{Kind: "get", K: A})
+			add(Op{Kind: "get", K: B})
+			p.Extra["gcTemplate"] = 1
+		}
+		add(Op{Kind: "restart", DelSeed: uint32(r.U64())})
+		idBase = id
+		restarts = 2
+	}
 	if prop == "C17" && len(c.Served) > 0 && p.Extra["scenario"] == 0 && r.Bool(1, 4) {
 		// age-limit template: the file following a range changes its first record (an in-place
 		// pass drops a dead first record) between two requests that look at its age
